@@ -376,7 +376,7 @@ def stage_blocking_cases(pid, tier, seed, d, binp, st, ctx):
     per terminal state; (2) the two deviations must be refuted by TLC; (3) every case the code can run is executed on real
     threads (vh blockcases) and compared with the model's outcome.  pid C17 judges the calls on the ActorRef, pid C16 compares
     each call through a wrapper with the same call on the ActorRef."""
-    T_MS, SLACK = 300, 1000
+    T_US, SLACK = 300400, 1000000      # a timeout that is not a whole number of milliseconds; scheduling slack
     base = ("SPECIFICATION Spec\nCONSTANTS\n  HelperRt = \"%s\"\n  KeepsTimeout = %s\n  T = 2\n  MaxNow = 4\n  Emit = %s\n"
             "INVARIANTS ByDeadline ReturnsInv NoPanic Delivery EmitCases\nPROPERTIES Returns\nCHECK_DEADLOCK FALSE\n")
     def tlc(name, helper, keeps, emit):
@@ -414,7 +414,7 @@ def stage_blocking_cases(pid, tier, seed, d, binp, st, ctx):
     runnable.sort(key=key)
     cp = os.path.join(d, "block_cases.json"); json.dump(runnable, open(cp, "w"))
     rp_ = os.path.join(d, "block_results.json")
-    ctx["run"]([binp, "blockcases", "--in", cp, "--out", rp_, "--t", str(T_MS), "--par", "12"], cwd=d, timeout=900)
+    ctx["run"]([binp, "blockcases", "--in", cp, "--out", rp_, "--t-us", str(T_US), "--par", "12"], cwd=d, timeout=900)
     obs = {key(o): o for o in json.load(open(rp_))}
     def judge(k):
         """list of complaints about the observed outcome of case k against the model"""
@@ -426,10 +426,10 @@ def stage_blocking_cases(pid, tier, seed, d, binp, st, ctx):
         if o["res"] != mres:
             bad.append("outcome %s, the model says %s" % (o["res"], mres))
         if k[4] == "timed":
-            if o["res"] == "blocked" or o["ms"] > T_MS + SLACK:
-                bad.append("a call with a %d ms timeout was not back after %d ms" % (T_MS, T_MS + SLACK))
-            if o["res"] == "timeout" and o["ms"] < T_MS:
-                bad.append("Timeout after %d ms, before the %d ms deadline" % (o["ms"], T_MS))
+            if o["res"] == "blocked" or o["us"] > T_US + SLACK:
+                bad.append("a call with a %d us timeout was not back after %d us" % (T_US, T_US + SLACK))
+            if o["res"] == "timeout" and o["us"] < T_US:
+                bad.append("Timeout after %d us, before the %d us deadline" % (o["us"], T_US))
             if o["res"] == "panic":
                 bad.append("a timed call panicked")
         if o["res"] != "blocked" and mres != "blocked" and k[2] != "dead" and o["delivered"] != (1 if mq else 0):
@@ -437,8 +437,18 @@ def stage_blocking_cases(pid, tier, seed, d, binp, st, ctx):
         return bad
     viol = []
     checked = 0
+    only_mode = st.get("only_mode")
     for k in sorted(model):
         if next(iter(model[k]))[0] == "panic":
+            continue
+        if only_mode and k[2] != only_mode:
+            continue
+        if only_mode:
+            # both the call on the ActorRef and the one through the wrapper are judged against the model
+            checked += 1
+            b = judge(k)
+            if b:
+                viol.append((k, "; ".join(b) + " (observed %s)" % json.dumps(obs.get(k))))
             continue
         if pid == "C16":
             if k[5] != "erased":
@@ -447,7 +457,7 @@ def stage_blocking_cases(pid, tier, seed, d, binp, st, ctx):
             checked += 1
             o, o2 = obs.get(k), obs.get(twin)
             same = o and o2 and o["res"] == o2["res"] and o["delivered"] == o2["delivered"] and \
-                (abs(o["ms"] - o2["ms"]) <= SLACK)
+                (abs(o["us"] - o2["us"]) <= SLACK)
             if not same and not judge(twin):
                 why = "through the wrapper: %s; on the ActorRef: %s" % (json.dumps(o), json.dumps(o2))
                 viol.append((k, why))
@@ -470,9 +480,9 @@ def stage_blocking_cases(pid, tier, seed, d, binp, st, ctx):
     ctx["log"]("Blocking.tla: %d states, %d configurations (%s); %d executed on real threads, %d judged for %s, violations: %d"
                % (ds, len(model), hist, len(obs), checked, pid, len(viol)))
     return dict(coverage={"module": "Blocking", "states": ds, "configurations": len(model), "model_outcomes": hist,
-                          "cases_executed": len(obs), "cases_judged": checked, "timeout_ms": T_MS, "slack_ms": SLACK,
+                          "cases_executed": len(obs), "cases_judged": checked, "timeout_us": T_US, "slack_us": SLACK,
                           "deviations_refuted_by_tlc": ["HelperRt=ambient", "KeepsTimeout=FALSE"]},
                 violations=vout, traces=checked, states=ds, transitions=g,
                 samples=[{"stage": "blocking_cases", "case": runnable[0]["cfg"], "model": runnable[0]["res"]}],
-                nontrivial_keys=["blk_" + "_".join(k) for k in model if (k[5] == "erased") == (pid == "C16")
-                                 and next(iter(model[k]))[0] != "panic"])
+                nontrivial_keys=["blk_" + "_".join(k) for k in model if next(iter(model[k]))[0] != "panic"
+                                 and ((k[2] == only_mode) if only_mode else ((k[5] == "erased") == (pid == "C16")))])
